@@ -139,8 +139,7 @@ def rule_save_restore(ctx, R="C09/save-restore"):
               "the bytes written at the slot are not exactly that slot's bytes: %s" % why)
 
 
-def rule_append_flush(ctx):
-    R = "C09/append-flush"
+def rule_append_flush(ctx, R="C09/append-flush"):
     b = ctx.body(R, DS + "::write_to_file")
     if b is None:
         return
@@ -337,6 +336,9 @@ def run(ctx):
     from rules import c10
     c10.rule_bytes_before_dirent(ctx, R="C09/append-before-slot")
     rule_dest_errors_abort(ctx)
+    # dump_dir_entry stores the entry in the image with set_value_at(i) and copies the bytes location_of_index(i) names to the destination:
+    # the two must address the same slot (same rule instance as C16/slot-siblings)
+    c16.rule_slot_siblings(ctx, R="C09/slot-image-agree")
 
 
 def thorough(ctx):
